@@ -266,12 +266,24 @@ func c01Directed() []ap.Item {
 		time.Date(2023, 1, 31, 1, 2, 3, 0, time.UTC), time.Date(2023, 4, 30, 4, 5, 6, 0, time.UTC), time.Date(2024, 2, 29, 23, 59, 59, 0, time.UTC),
 		time.Date(2024, 12, 31, 23, 59, 59, 0, time.FixedZone("", -5*3600)), time.Date(2399, 12, 31, 0, 0, 0, 0, time.UTC),
 		time.Date(2400, 3, 1, 0, 0, 0, 0, time.UTC), time.Date(9999, 12, 31, 23, 59, 59, 0, time.UTC),
+		// the ends of the four-digit years seen from another zone: the wall clock is in year 10000 / -1 while the
+		// instant, written in UTC, is inside 0000-9999 (the other way round is outside the well-formed values: C02's hostile block has those)
+		time.Date(9999, 12, 31, 20, 0, 0, 0, time.UTC).In(time.FixedZone("", 14*3600)),
+		time.Date(0, 1, 1, 3, 0, 0, 0, time.UTC).In(time.FixedZone("", -12*3600)),
+		time.Date(9999, 12, 31, 23, 59, 59, 0, time.UTC).In(time.FixedZone("", 1)),
 	} {
 		out = append(out, &ap.Object{ID: id, Type: ap.NoteType, Published: tm})
 	}
 	for _, d := range []time.Duration{time.Second, -time.Second, 59 * time.Second, time.Minute, time.Hour, -(23*time.Hour + 59*time.Minute + 59*time.Second), 23*time.Hour + 59*time.Minute + 59*time.Second} {
 		out = append(out, &ap.Object{ID: id, Type: ap.NoteType, Duration: d})
 	}
+	// list members that embed another absolute URL with the same tail behind different hosts: distinct ids, whatever
+	// "://" the scheme is cut at
+	nested := ap.ItemCollection{ap.IRI("https://alpha.example/share?u=https://gamma.example/notes/1"), ap.IRI("https://beta.example/share?u=https://gamma.example/notes/1"),
+		ap.IRI("http://gamma.example/notes/1"), ap.IRI("https://one.example/proxy/https://remote.example/notes/1"), ap.IRI("https://two.example/fetch/https://remote.example/notes/1")}
+	out = append(out, &ap.Object{ID: id, Type: ap.NoteType, To: nested, CC: nested[3:], Tag: nested[:2]})
+	out = append(out, &ap.OrderedCollection{ID: id, Type: ap.OrderedCollectionType, OrderedItems: nested, TotalItems: 5})
+	out = append(out, &ap.CollectionPage{ID: id, Type: ap.CollectionPageType, Items: nested[:2], TotalItems: 2})
 	// an object (top level and embedded) whose only property is a negative duration
 	out = append(out, &ap.Object{Duration: -5 * time.Second})
 	out = append(out, &ap.Object{ID: id, Type: ap.NoteType, Attachment: &ap.Object{Duration: -5 * time.Second}})
